@@ -74,6 +74,26 @@ class Normaliser:
         for n in ast.walk(f.node):
             if isinstance(n, ast.Name) and isinstance(n.ctx, ast.Store):
                 self.assign_count[n.id] = self.assign_count.get(n.id, 0) + 1
+        # single-assignment locals are named by their definition (with such locals expanded in turn), so that the normal forms do
+        # not depend on how a local happens to be called: d = len(N) -> `len(N)`
+        self.single_def = {}
+        for n in ast.walk(f.node):
+            if isinstance(n, ast.Assign) and len(n.targets) == 1 and isinstance(n.targets[0], ast.Name) and self.assign_count.get(n.targets[0].id) == 1:
+                self.single_def[n.targets[0].id] = n.value
+
+    def canon(self, e, depth=0) -> str:
+        """text of an expression with single-assignment locals replaced by their defining expressions"""
+        import copy
+        outer = self
+
+        class R(ast.NodeTransformer):
+            def visit_Name(s, n):
+                if isinstance(n.ctx, ast.Load) and n.id in outer.single_def and depth < 4 and n.id not in outer.f.params():
+                    d = outer.single_def[n.id]
+                    if isinstance(d, (ast.Call, ast.Attribute, ast.BinOp, ast.Name, ast.Subscript)) and len(norm(d)) < 60:
+                        return ast.parse(outer.canon(d, depth + 1), mode="eval").body
+                return n
+        return norm(R().visit(copy.deepcopy(e)))
 
     def monos(self, e, env) -> list[Mono] | None:
         """All monomials the expression may denote (one per branch of conditional sub-expressions)."""
@@ -113,7 +133,7 @@ class Normaliser:
                         out.append(q)
                 return out
             if isinstance(e.op, (ast.Add, ast.Sub)):
-                return [atom("(" + norm(e) + ")")]
+                return [atom("(" + self.canon(e) + ")")]
             return None
         if isinstance(e, ast.Call):
             r = self.model.resolve(self.f.module, e.func)
@@ -125,7 +145,13 @@ class Normaliser:
             if r in ("torch.linalg.norm", "numpy.linalg.norm", "torch.norm") and len(e.args) >= 1:
                 if len(e.args) > 1 or e.keywords:
                     return None
-                return [atom("NORM(" + norm(strip_wrappers(e.args[0])) + ")")]
+                cur = strip_wrappers(e.args[0])
+                for _ in range(4):
+                    if isinstance(cur, ast.Name) and cur.id in self.single_def and cur.id not in self.f.params():
+                        cur = strip_wrappers(self.single_def[cur.id])
+                    else:
+                        break
+                return [atom("NORM(" + norm(cur) + ")")]
             if r in ("builtins.float", "builtins.abs") and len(e.args) == 1:
                 return self.monos(e.args[0], env)
             return None
@@ -199,7 +225,7 @@ class Normaliser:
             if m is not None:
                 env[name] = m
             elif self.assign_count.get(name, 0) == 1:
-                env[name] = [atom(name)]          # single-assignment opaque quantity (d = len(N)): its own atom
+                env[name] = [atom(self.canon(s.value))]          # single-assignment opaque quantity (d = len(N)): named by its definition
             else:
                 env[name] = [atom(f"VAR:{name}@{norm(s.value)[:40]}")]
         elif isinstance(s, ast.AugAssign) and isinstance(s.target, ast.Name):
@@ -269,9 +295,11 @@ def check_relative_allowance(m: Mono, eps_atom: str, norm_arg: str | None, share
             return False, f"the norm is taken of `{na[0]}`, not of the truncated spectrum `{norm_arg}`"
         e.pop(na[0])
     ok_share = False
+    import re as _re
     for a, bound in share_atoms.items():
-        if a in e and e[a] <= bound:
-            ok_share = True
+        for k, v in e.items():
+            if (k == a or (a.startswith("re:") and _re.fullmatch(a[3:], k))) and v <= bound:
+                ok_share = True
     if not ok_share:
         return False, ("the allowance is not divided among the truncations: need exponent "
                        + " or ".join(f"{a} <= {b}" for a, b in share_atoms.items()) + f", found {m.show()}")
